@@ -3,10 +3,11 @@ use crate::matcher::Matcher;
 use crate::source::Content;
 use crate::{Doc, Language, Node, StrDoc};
 use std::borrow::Cow;
-#[cfg(feature = "verif-hooks")]
-use crate::verif_hooks::VecMap as HashMap;
 #[cfg(not(feature = "verif-hooks"))]
 use std::collections::HashMap;
+
+#[cfg(feature = "verif-hooks")]
+use crate::verif_hooks::VecMap as HashMap;
 
 use crate::replacer::formatted_slice;
 
